@@ -62,6 +62,7 @@ func init() {
 
 func propC01(w *World, r *Report) {
 	defer RunEmptyTableGate(w, r)
+	defer RunTimeCarry(w, r)
 	defer RunNameEncodingID(w, r) // the strings of the name table come back: the writer uses an encoding id the reader decodes
 	defer func() {
 		r.Rule("macroman1 (shared with C03, C14): post format 1.0, which stores no glyph names, is chosen only for exactly the standard name list")
